@@ -28,7 +28,7 @@ N = F.num
 
 def bindings():
     env = F.empty_env()
-    env['vars'] = {'va': enc(3), 'vb': enc('qq'), 'vl': enc([3, 1, 2])}
+    env['vars'] = {'va': enc(3), 'vb': enc('qq'), 'vl': enc([3, 1, 2]), 'vd': {'t': 'date', 'y': 2019, 'mo': 11, 'd': 20, 'ms': 0}}
     env['funcs'] = {'BOOM': {'mode': 'exc', 'v': {'t': 'blank'}, 'i': 0},
                     'XLR': {'mode': 'raise', 'v': {'t': 'err', 'c': '#NUM!'}, 'i': 0},
                     'K': {'mode': 'const', 'v': enc(7), 'i': 0}}
@@ -55,10 +55,19 @@ KIND = {
     'xlraise': F.binop('+', N('1'), F.call('XLR')),
     'trapped': F.call('IFERROR', F.call('SUM', F.binop('/', N('1'), N('0'))), F.var('va')),
     'empty': {'raw': ''},
+    # a cell listener that has ANOTHER parser object evaluate something in passing (a workbook of several sheets)
+    'othersheet': F.binop('+', F.binop('+', F.cell('A1'), F.var('va')), F.binop('*', F.call('K'), F.cell('$A$1'))),
+    # dates against blanks under every operator: the conversion table is the same before and after
+    'datediv': F.binop('/', F.var('vd'), F.var('NULL')),
+    'blankdivdate': F.binop('/', F.var('NULL'), F.var('vd')),
+    'dateplus': F.binop('+', F.var('vd'), F.var('NULL')),
+    'datetimes': F.binop('*', F.var('vd'), F.var('NULL')),
+    'blankminusdate': F.binop('-', F.var('NULL'), F.var('vd')),
+    'dateminus': F.binop('-', F.var('vd'), N('1')),
     # a sheet whose cells hold formulas: the cell listener evaluates another formula on the same parser, for every cell
     'sheet': F.binop('*', F.call('SUM', F.cell('A1'), F.binop('+', F.cell('$A$1'), F.cell('a1'))), N('2')),
 }
-PROBES = [KIND['ok'], KIND['okcells'], KIND['cellexc'], KIND['rangeexc'], KIND['fnlistenerexc'], KIND['trapped'], KIND['divzero'], KIND['unknownvar'], KIND['syntax'],
+PROBES = [KIND['dateplus'], KIND['blankminusdate'], KIND['datetimes'], KIND['dateminus'], KIND['ok'], KIND['okcells'], KIND['cellexc'], KIND['rangeexc'], KIND['fnlistenerexc'], KIND['trapped'], KIND['divzero'], KIND['unknownvar'], KIND['syntax'],
           F.binop('&', F.var('vb'), F.call('K')), F.call('SUM', F.var('vl'), F.cell('B2')), KIND['xlraise']]
 
 
@@ -170,6 +179,11 @@ def replay_history(lib, tid, kinds, debug):
                 for _ in range(STAMINA[0]):
                     L.h.parse(text)
             continue
+        if k == 'othersheet':
+            def elsewhere(hh, payload):
+                L.decoy.parse('va+K()+A1&vb')
+                L.decoy.parse('nosuch2+1')
+            L.h.hooks = {'cell': elsewhere, 'cell:post': elsewhere, 'var': elsewhere, 'call:K': elsewhere}
         if k == 'sheet':
             def nested(hh, payload):
                 saved, hh.hooks = hh.hooks, {}
